@@ -435,6 +435,10 @@ func TestCheck(t *testing.T) {
 			x.Observe(tg.name, d, outcomes(e, c.IDs))
 		}, engine.Opts{Name: "redistribute/foreign-shard", Serial: true, Procs: 12, CrashTrace: true, Engine: "SCHED", Budget: engine.Budget(2*time.Minute, 10*time.Minute)})
 	}
+	// non-interactive protocol: Boldyreva threshold BLS (one partial signature per cosigner, then an aggregator)
+	if only == "" || strings.Contains("boldyreva", only) {
+		boldyrevaSections()
+	}
 	if len(undet) > 0 {
 		keys := make([]string, 0, len(undet))
 		for k := range undet {
